@@ -54,6 +54,15 @@ class Engine(Interp, ExprMixin, StmtMixin, CallMixin, MethodMixin):
         self.revealed = set(c.reveal)
         self.implicit_as_paths = any(k in c.raises for k in ('IndexError', 'ValueError', 'KeyError', 'ZeroDivisionError', 'TypeError'))
         info = {'fs': fs, 'inputs': None, 'outcomes': []}
+        body_stmts = fs.node.body
+        if c.region is not None:
+            tname, needle = c.region
+            cands = [n for n in ast.walk(fs.node) if isinstance(n, ast.stmt) and type(n).__name__ == tname and needle in ast.unparse(n)]
+            if not cands:
+                raise Unsupported(f'region {c.region!r} not found in {fs.qual}')
+            stmt = min(cands, key=lambda n: (n.end_lineno - n.lineno))
+            body_stmts = [stmt]
+            info['region_lines'] = (stmt.lineno, stmt.end_lineno)
         names = self.contract_names_for(c, mod)
         resolver = None
 
@@ -93,7 +102,7 @@ class Engine(Interp, ExprMixin, StmtMixin, CallMixin, MethodMixin):
             outcome = None
             try:
                 try:
-                    self.exec_block(fs.node.body, fr)
+                    self.exec_block(body_stmts, fr)
                     outcome = ('return', None)
                 except ReturnSig as r:
                     outcome = ('return', r.value)
@@ -115,6 +124,7 @@ class Engine(Interp, ExprMixin, StmtMixin, CallMixin, MethodMixin):
                 except PyRaise as ex:
                     outcome = ('raise', ex)
             fpost.extra['__trace__'] = PyList(list(p.trace), 'gen')
+            fpost.extra['final'] = Builtin('final', lambda a, k, n, f: fr.env[a[0]])
             if outcome[0] == 'return':
                 fpost.extra['result'] = outcome[1] if c.yields is None else p.yields
                 for j, txt in enumerate(c.ensures):
@@ -125,6 +135,9 @@ class Engine(Interp, ExprMixin, StmtMixin, CallMixin, MethodMixin):
                 self.frame_obligations(c, entry, live, fs)
             else:
                 ex = outcome[1]
+                fpost.extra['__exc__'] = ex.cls.__name__
+                for j, txt in enumerate(c.on_raise):
+                    self.oblige(f'on-raise#{j}', self.ev_text(txt, fpost), ex.node or fs.node, txt)
                 matched = False
                 for exc, cond in c.raises.items():
                     cls = self.exc_class(exc, mod)
@@ -490,6 +503,8 @@ def verify_contract(registry, c, second=False, shard=None):
     fs = info['fs']
     rec.update(lines=list(fs.lines), sha256=fs.sha256, dropped=fs.dropped() + list(c.dropped), paths=info['paths'],
                outcomes=sorted({str(o) for o in info['outcomes']}), gen_s=round(time.time() - t0, 3))
+    if info.get('region_lines'):
+        rec['dropped'] = rec['dropped'] + [f"only the statement at lines {info['region_lines'][0]}-{info['region_lines'][1]} of the function is verified (region contract); its live-in variables are the contract parameters"]
     # vacuity: the assumptions of the contract must be satisfiable and some path must end normally or exceptionally
     if not any(o is not None for o in info['outcomes']):
         rec['error'] = 'VACUOUS: no feasible path through the function under the stated requires'
